@@ -23,6 +23,7 @@ import (
 	"github.com/privacybydesign/gabi"
 	"github.com/privacybydesign/gabi/big"
 	"github.com/privacybydesign/gabi/gabikeys"
+	"github.com/privacybydesign/gabi/revocation"
 	"github.com/privacybydesign/gabi/safeprime"
 	"github.com/privacybydesign/gabi/signed"
 	"github.com/sirupsen/logrus"
@@ -39,6 +40,9 @@ var xmlPrivKey2 string
 
 //go:embed testdata/xmlPubKey2.xml
 var xmlPubKey2 string
+
+//go:embed testdata/key3.json
+var key3json []byte
 
 func init() {
 	gabi.Logger.SetLevel(logrus.FatalLevel)
@@ -268,6 +272,90 @@ func Keys1024() []KeyPair {
 	return keys1024
 }
 
+var (
+	key3Once sync.Once
+	key3     KeyPair
+)
+
+// Key3 is the third fixed 1024-bit key pair of the repository's tests (given there as raw numbers).
+func Key3() KeyPair {
+	key3Once.Do(func() {
+		var raw struct {
+			P, Q, N, S, Z string
+			R          []string
+		}
+		if err := json.Unmarshal(key3json, &raw); err != nil {
+			Fatal("key3: %v", err)
+		}
+		b := func(s string) *big.Int {
+			x, ok := new(big.Int).SetString(s, 10)
+			if !ok {
+				Fatal("key3: bad number")
+			}
+			return x
+		}
+		var rs []*big.Int
+		for _, r := range raw.R {
+			rs = append(rs, b(r))
+		}
+		sk, err := gabikeys.NewPrivateKey(b(raw.P), b(raw.Q), "", 0, time.Now().AddDate(1, 0, 0))
+		if err != nil {
+			Fatal("key3: %v", err)
+		}
+		pk, err := gabikeys.NewPublicKey(b(raw.N), b(raw.Z), b(raw.S), nil, nil, rs, "", 0, time.Now().AddDate(1, 0, 0))
+		if err != nil {
+			Fatal("key3: %v", err)
+		}
+		if err := gabikeys.GenerateRevocationKeypair(sk, pk); err != nil {
+			Fatal("key3 revocation keypair: %v", err)
+		}
+		pk.Issuer = "fixed3"
+		key3 = KeyPair{sk, pk}
+	})
+	return key3
+}
+
+// Issue runs the real issuance protocol between a fresh CredentialBuilder and the issuer of kp.
+func Issue(kp KeyPair, context, secret, keyshareP *big.Int, attrs []*big.Int, witness *revocation.Witness, blind []int) (*gabi.Credential, error) {
+	nonce1, _ := gabi.GenerateNonce()
+	nonce2, _ := gabi.GenerateNonce()
+	cb, err := gabi.NewCredentialBuilder(kp.PK, context, secret, nonce2, keyshareP, blind)
+	if err != nil {
+		return nil, err
+	}
+	icm, err := cb.CommitToSecretAndProve(nonce1)
+	if err != nil {
+		return nil, err
+	}
+	// (with a keyshare contribution the commitment proof only verifies after merging the server's ProofP: not run here)
+	if keyshareP == nil && !icm.Proofs.Verify([]*gabikeys.PublicKey{kp.PK}, context, nonce1, false, nil) {
+		return nil, fmt.Errorf("issuer: commitment proof does not verify")
+	}
+	ism, err := gabi.NewIssuer(kp.SK, kp.PK, context).IssueSignature(icm.U, attrs, witness, nonce2, blind)
+	if err != nil {
+		return nil, err
+	}
+	return cb.ConstructCredential(ism, attrs)
+}
+
+// NewRevocation starts an accumulator for kp and returns a fresh valid witness for it.
+func NewRevocation(kp KeyPair) (*revocation.Witness, *revocation.Update, error) {
+	update, err := revocation.NewAccumulator(kp.SK)
+	if err != nil {
+		return nil, nil, err
+	}
+	acc, err := update.SignedAccumulator.UnmarshalVerify(kp.PK)
+	if err != nil {
+		return nil, nil, err
+	}
+	w, err := revocation.RandomWitness(kp.SK, acc)
+	if err != nil {
+		return nil, nil, err
+	}
+	w.SignedAccumulator = update.SignedAccumulator
+	return w, update, nil
+}
+
 // ToyRevocationKey builds a key that is sufficient for the revocation package only (modulus of
 // two `bits`-bit safe primes, G, H, ECDSA key), as the repository's revocation tests do.
 func ToyRevocationKey(bits int, counter uint) KeyPair {
@@ -318,4 +406,20 @@ func RandomQR(n *big.Int) *big.Int {
 		}
 		return r.Mul(r, r).Mod(r, n)
 	}
+}
+
+// D10Ambiguous reports the known finding D10 pattern on an honest disclosure proof with a non-revocation part:
+// some hidden response other than the one of the witness attribute (revIdx) is below 2^(195+256+128+1), so that
+// ProofD.revocationAttrIndex (map iteration order) may pick the wrong response and verification fails.
+func D10Ambiguous(p *gabi.ProofD, revIdx int) bool {
+	if p == nil || p.NonRevocationProof == nil {
+		return false
+	}
+	bound := new(big.Int).Lsh(big.NewInt(1), 195+256+128+1)
+	for i, r := range p.AResponses {
+		if i != revIdx && r.Cmp(bound) < 0 {
+			return true
+		}
+	}
+	return false
 }
